@@ -85,15 +85,15 @@ def handle : List String → Option (List String)
       let u := buildRdbUnit (cl == "1") (rep == "1") k []
       some [s!"{Hex.encode (rdbTargetKey (rep == "1") k)} slot={u.slot} tag={Hex.encode u.slotTag}"]
     | none => some ["bad-op"]
-  | "c18" :: "rdbcmds" :: useRestore :: firstBin :: replaceExisting :: hasTtl :: rep :: key :: raw =>
+  | "c18" :: "rdbcmds" :: useRestore :: firstBin :: replaceExisting :: hasTtl :: rep :: v5 :: idle :: freq :: key :: raw =>
     -- the command list of a snapshot unit; the ttl and dump arguments are canonicalised to "T" / "D" on both sides
-    match Hex.decode key, raw.mapM cmd? with
-    | some k, some rawCmds =>
+    match Hex.decode key, raw.mapM cmd?, idle.toNat?, freq.toNat? with
+    | some k, some rawCmds, some idle, some freq =>
       let tgt := rdbTargetKey (rep == "1") k
       let cs := rdbCommands (useRestore == "1") (firstBin == "1") (replaceExisting == "1") k tgt rawCmds
-        (if hasTtl == "1" then some [84] else none) [84] [68]
+        (if hasTtl == "1" then some [84] else none) [84] [68] (v5 == "1") idle freq
       some [" ".intercalate (cs.map cmdStr)]
-    | _, _ => some ["bad-op"]
+    | _, _, _, _ => some ["bad-op"]
   | "c18" :: "build" :: mode :: fb :: cmds =>
     match fb? fb, cmds.mapM cmd? with
     | some f, some cs =>
